@@ -12,6 +12,7 @@ import ast
 
 from ..cfg import known_falsy, known_truthy
 from ..model import self_attr, unparse, walk_body_shallow
+from .util import *  # noqa: F401,F403
 from .util import (list_adds, expand, value_origins, at, deferred_origins, bootstrap_names, call_name, call_recv, calls_in, need, node_assign_value, norm, real_suspension, registrations, where)
 
 TECHNIQUE = "poison-first dominance, aggregate construction def-use, call-graph dominance of the closing test, " \
@@ -150,7 +151,7 @@ def run(ctx):
     r.check(ok, "%s#aggregate-of-every-close" % cbc.qname, "the aggregate does not contain the close Deferred of every broker client",
             where(cbc, cbc.node), "close() reports completion while a broker connection is still closing")
     inits = [n for n in cc.nodes if n.kind == "stmt" and isinstance(n.stmt, ast.Assign) and unparse(n.stmt.targets[0]) == lst]
-    nest = [n for n in inits if norm(n.stmt.value) == "[self.close_dlist]"]
+    nest = [n for n in inits if norm(at(ctx, cbc, n.id, n.stmt.value)) == "[self.close_dlist]"]
     okn = len(nest) == 1 and any((t, pol) in fcc[nest[0].id] for t, pol in (("self.close_dlist", True), ("not self.close_dlist", False)))
     r.check(okn, "%s#nests-earlier-aggregate" % cbc.qname, "an aggregate still pending from an earlier close (metadata refresh) is dropped",
             where(cbc, cbc.node), "close() fires before brokers being closed by a refresh are gone")
@@ -334,12 +335,26 @@ def run(ctx):
                 out.append((True, "%s (client operation)" % nm))
             elif nm == "makeRequest":
                 out.append((True, "%s (broker client request)" % nm))
-            elif nm in ("DeferredList", "gatherResults") and o.args and isinstance(o.args[0], ast.Name) and depth < 2:
-                els = [(c_, e_) for acc, e_, _s, _v, c_ in list_adds(f, cff) if acc == o.args[0].id and e_ is not None]
-                if not els:
+            elif nm in ("DeferredList", "gatherResults") and o.args and depth < 2:
+                # the members of the aggregate, whatever container carries them (a list, a list of pairs, a comprehension)
+                from ..seqsym import Seq
+                sh = Seq(ctx, f).shape_of_expr(o.args[0])
+                members = []
+
+                def leaves(v_):
+                    if v_[0] == "call":
+                        members.append(v_[1])
+                    elif v_[0] == "tuple":
+                        for x_ in v_[1]:
+                            leaves(x_)
+                    elif v_[0] in ("dlres", "flag", "value"):
+                        leaves(v_[1])
+                if sh is not None:
+                    leaves(sh[1])
+                if not members:
                     out.append((None, norm(o)))
-                for c_, e_ in els:
-                    out.extend(classify(f, cff, cff.containing(c_)[0], e_, depth + 1))
+                for c_ in members:
+                    out.extend(classify(f, cff, cff.containing(c_)[0], c_, depth + 1))
             elif nm in ("succeed", "fail", "maybeDeferred"):
                 out.append((None, norm(o)))
             else:
@@ -418,6 +433,16 @@ def run(ctx):
 
 
 MUTANTS = [
+    {"id": "close-does-not-cancel-waits", "file": "client.py",
+     "old": "        for d in list(self._cancel_on_close):\n            d.cancel()\n", "new": "", "expect": "C20.R7", "note": "finding F26"},
+    {"id": "bootstrap-connect-untracked", "file": "client.py",
+     "old": "protocol = yield self._until_close(ep.connect(_bootstrapFactory))", "new": "protocol = yield ep.connect(_bootstrapFactory)",
+     "expect": "C20.R7", "note": "finding F26"},
+    {"id": "wrapper-forgets-to-track", "file": "client.py",
+     "old": "        self._cancel_on_close.add(d)\n        return d.addBoth(_forget)", "new": "        return d.addBoth(_forget)", "expect": "C20.R7"},
+    {"id": "cancel-over-live-set", "file": "client.py",
+     "old": "        for d in list(self._cancel_on_close):", "new": "        for d in self._cancel_on_close:", "expect": "C20.R7"},
+
     {"id": "partition-meta-survives-reset", "file": "client.py", "old": "        self.partition_meta.clear()\n", "new": "", "expect": "C20.R5", "note": "finding F24"},
     {"id": "bootstrap-loop-no-recheck", "file": "client.py",
      "old": "            if self._closing:\n                raise CancelledError(message=\"{} was closed while bootstrapping\".format(self))\n            ep = ",
